@@ -60,11 +60,33 @@ static int play( unsigned where, bool verbose )
     if ( !ok ) { std::printf( "REPRODUCED: expected %zu deliveries (every LL control PDU once, the SDU once and complete), got %zu\n", expected.size(), delivered.size() ); return 1; }
     return 0;
 }
+// an unfragmented SDU arrives while another one is incomplete: the incomplete one is dropped for good - a continuation fragment that arrives later completes nothing
+static int abandoned( bool verbose )
+{
+    pdu_t sdu = { 40, 0, 4, 0 }; for ( int i = 0; i < 40; ++i ) sdu.push_back( static_cast< std::uint8_t >( 0xA0 + i ) );
+    const pdu_t first( sdu.begin(), sdu.begin() + 27 ), second( sdu.begin() + 27, sdu.end() );
+    const pdu_t small = { 3, 0, 4, 0, 0x0a, 0x03, 0x00 };
+    buf_t b;
+    b.rx.push_back( ll( 2, first ) ); b.rx.push_back( ll( 2, small ) ); b.rx.push_back( ll( 1, second ) ); b.rx.push_back( ll( 1, second ) );
+    std::vector< pdu_t > delivered;
+    for ( int guard = 0; guard < 10; ++guard ) {
+        const auto p = b.next_ll_l2cap_received();
+        if ( p.size == 0 ) break;
+        delivered.push_back( pdu_t( p.buffer, p.buffer + p.size ) );
+        b.free_ll_l2cap_received();
+    }
+    const bool ok = delivered.size() == 1 && delivered[ 0 ] == ll( 2, small ) && b.receive_buffer_used_ == 0 && b.receive_size_ == 0;
+    if ( verbose || !ok ) std::printf( "first fragment of a 40 octet SDU, an unfragmented 3 octet SDU, two stray continuation fragments: %zu PDU(s) delivered, reassembly state afterwards: used %zu, expected %u\n",
+                                       delivered.size(), b.receive_buffer_used_, (unsigned)b.receive_size_ );
+    if ( !ok ) { std::printf( "REPRODUCED: the abandoned SDU was not dropped completely\n" ); return 1; }
+    return 0;
+}
 int main( int argc, char** argv )
 {
     replay_args a( argc, argv );
     int rc = 0;
     for ( unsigned w = 0; w != 3; ++w ) rc |= play( w, a.has( "verbose" ) );
+    rc |= abandoned( a.has( "verbose" ) );
     if ( !rc ) std::printf( "not reproduced\n" );
     return rc;
 }
